@@ -412,3 +412,11 @@ def r10_4(ctx):
 
 
 RULES = [r10_1, r10_2, r10_3, r10_4]
+
+
+def _xcheck(ctx):
+    from .common import mypy_crosscheck
+    mypy_crosscheck(ctx)
+
+
+THOROUGH = [_xcheck]
